@@ -1,4 +1,4 @@
-\* simulation (tlc -simulate): deep behaviours of the full protocol, 3 correct producers, up to 14 blocks, 2 restarts
+\* simulation (tlc -simulate): deep behaviours of the full protocol, 3 correct producers, up to 14 blocks, 2 restarts; all properties
 SPECIFICATION Spec
 CONSTANTS
   N = 3
@@ -9,6 +9,7 @@ CONSTANTS
   MaxRestarts = 2
   ByzMode = "branch"
   ByzRanges <- R123
-  Fixes <- NoFix
-INVARIANTS TypeOK HonestConfirms
+  Fixes <- AllFixes
+INVARIANTS TypeOK LibOnMain ConfirmsOnMain Agreement HonestConfirms
+PROPERTIES LibMonotone Final NoForkBelowLib LibQuorum RestoreEqualsRecompute
 CHECK_DEADLOCK FALSE
